@@ -401,6 +401,11 @@ func (lb *LoadBalancer) processHealthCheckResponse(backend *Backend, resp *http.
 	// If we get here, the backend is healthy
 	backend.Mutex.Lock()
 	wasUnhealthy := !backend.IsHealthy
+	if wasUnhealthy && !time.Now().After(backend.UnhealthyUntil) {
+		// Ejected while this probe was in flight: the unhealthy window still runs
+		backend.Mutex.Unlock()
+		return
+	}
 	backend.IsHealthy = true
 	backend.Mutex.Unlock()
 
